@@ -56,8 +56,8 @@ def _one_test(args):
 def _one_discovery(args):
     info, method, n_vars, L, T, alpha, n, seed, kind, k = args[:10]
     alpha_f = args[10] if len(args) > 10 else alpha      # (forward level, when different from the final, backward, level)
-    from causationentropy.core.discovery import discover_network
-
+    from common import EntryPoints
+    discover_network = EntryPoints("discover_network", "causationentropy.core.discovery", "causationentropy.core", "causationentropy")   # every public path, in turn
     rng = np.random.default_rng(seed)
     data = rng.poisson(3.0, size=(T, n_vars)).astype(float) if kind == "count" else rng.standard_normal((T, n_vars))
     with warnings.catch_warnings(), quiet():
